@@ -155,7 +155,7 @@ ADDITIONS = {
     "fault matrix (an error from any call) is run for NoPanic / NoHang."),
     "C10": (" Recovery attempts are counted within the configured window (RecoveryBounded is windowed); failures spaced further "
     "apart than back-off + window must each be recovered (TransientRecovers). A run into which a plain read / write error was injected "
-    "and which nobody asked to stop must never be stored as stopped by the user (evaluated on every lifecycle trace; deterministic family "
+    "and which nobody asked to stop must never be stored as stopped by the user (on every trace of C10's families; deterministic family "
     "with the scheduling point lifecycle.node-done; Lifecycle.tla with RecordBeforeDone = FALSE refutes NoPhantomStop)."),
     "C11": (" ParallelNode.tla (the v1 parallel processor node: dispatcher, workers, coordinator, bounded error channel) is model-checked for "
     "deadlock freedom / Finishes / AllResolved with three refuted variants; the parallel-overflow family repeats the wedging scenario on the real engine."),
